@@ -11,6 +11,7 @@ import sys
 import types
 
 from pyvc.api import *
+from pyvc.values import GhostVal, HostFn
 
 CFG = "cspuz/configuration.py"
 SOL = "cspuz/solver.py"
@@ -668,6 +669,84 @@ def passthrough_grid(case):
     if len(seen) == 1:
         v = seen[0]
         check("acyclic-unchanged", v.get("acyclic") == acyclic)
+        check("flag-unchanged", (v.get("use_graph_primitive") is None) if arg is None else (v.get("use_graph_primitive") == arg))
+
+
+@harness("C20", cases=[dict(fn=f, arg=a) for f in ("active_edges_single_cycle", "active_edges_single_path") for a in ("none", "given")])
+def passthrough_frame(case):
+    """frame form of the cycle / path constraints (a BoolGridFrame of any size, graph omitted): the flag reaches the worker
+    unchanged, together with the edges and the graph read off the frame"""
+    if CTX.mode != "sym":
+        return
+    arg = _flag(case.arg, "arg_ugp")
+    h, w = sint("h"), sint("w")
+    requires(And(h >= 0, w >= 0))
+    seen = []
+    solver = construct(CLS(SOL, "Solver"))
+    frame = OBJ("cspuz/grid_frame.py", "BoolGridFrame", solver=solver, height=h, width=w, horizontal=Opaque("hz"), vertical=Opaque("vt"))
+    edges, g = Opaque("edges-of-the-frame"), Opaque("graph-of-the-frame")
+    use_contract(GR + "::_from_grid_frame", lambda it, a, k: (edges, g))
+
+    class Passed(GhostVal):
+        def pv_getattr(self, name):
+            if name != "reshape":
+                raise OutOfSubset("passed.%s" % name)
+            return HostFn(lambda it, a, k: Opaque("reshaped"), "reshape", raw=True)
+
+    def worker(it, a, k):
+        vals = dict(zip(["solver", "is_active_edge", "graph", "use_graph_primitive"], a))
+        vals.update(k)
+        seen.append(vals)
+        return Passed()
+    use_contract(GR + "::_" + case.fn, worker)
+    o = call(REAL(GR, case.fn), solver, frame, use_graph_primitive=arg)
+    check("no-exception", not o.raised)
+    check("worker-called-once", len(seen) == 1)
+    if len(seen) == 1:
+        v = seen[0]
+        check("the-frame's-edges-and-graph", v.get("is_active_edge") is edges and v.get("graph") is g)
+        check("flag-unchanged", (v.get("use_graph_primitive") is None) if arg is None else (v.get("use_graph_primitive") == arg))
+
+
+@harness("C20", cases=[dict(arg=a) for a in ("none", "given")])
+def passthrough_borders_grid(case):
+    """grid form of division_connected_variable_groups_with_borders (IntArray2D sizes, BoolInnerGridFrame borders): the flag
+    reaches the worker unchanged, with the graph and edges read off the dual of the border frame and the flattened sizes"""
+    if CTX.mode != "sym":
+        return
+    arg = _flag(case.arg, "arg_ugp")
+    h, w = sint("h"), sint("w")
+    requires(And(h >= 0, w >= 0))
+    seen = []
+    solver = construct(CLS(SOL, "Solver"))
+    sizes = OBJ("cspuz/array.py", "IntArray2D", shape=(h, w), data=slist("sz", "opaque", h * w))
+    flat = Opaque("flattened-sizes")
+    use_contract("cspuz/array.py::Array2D.flatten", lambda it, a, k: flat)
+    use_contract("cspuz/array.py::IntArray2D.flatten", lambda it, a, k: flat)
+    borders = OBJ("cspuz/grid_frame.py", "BoolInnerGridFrame", solver=solver, height=h, width=w, horizontal=Opaque("hz"), vertical=Opaque("vt"))
+    dual = Opaque("dual-of-the-border-frame")
+    use_contract("cspuz/grid_frame.py::BoolInnerGridFrame.dual", lambda it, a, k: dual)
+    edges, g = Opaque("edges-of-the-frame"), Opaque("graph-of-the-frame")
+    asked = []
+
+    def fgf(it, a, k):
+        asked.append(a)
+        return (edges, g)
+    use_contract(GR + "::_from_grid_frame", fgf)
+
+    def worker(it, a, k):
+        vals = dict(zip(["solver", "graph", "group_size", "is_border", "use_graph_primitive"], a))
+        vals.update(k)
+        seen.append(vals)
+        return None
+    use_contract(GR + "::_division_connected_variable_groups_with_borders", worker)
+    o = call(REAL(GR, "division_connected_variable_groups_with_borders"), solver, group_size=sizes, is_border=borders, use_graph_primitive=arg)
+    check("no-exception", not o.raised)
+    check("worker-called-once", len(seen) == 1)
+    check("the-graph-is-read-off-the-dual-frame", len(asked) == 1 and len(asked[0]) == 1 and asked[0][0] is dual)
+    if len(seen) == 1:
+        v = seen[0]
+        check("graph,-flattened-sizes-and-edges-of-the-frame", v.get("graph") is g and v.get("group_size") is flat and v.get("is_border") is edges)
         check("flag-unchanged", (v.get("use_graph_primitive") is None) if arg is None else (v.get("use_graph_primitive") == arg))
 
 
